@@ -9,8 +9,9 @@
 (*               x.result   (r, k: "ok"/"err", b: the output is r's own)   *)
 (* environment   f.hello (k, n: version), f.answer (k, r), f.end (k),      *)
 (*               f.failwrites                                              *)
-(* server lines  s.hs (k: stage, b: ok), s.ret (n: errors, b: hello seen)  *)
-(* environment   e.send (k), e.end, e.outfail                              *)
+(* server lines  s.hs (k: stage, b: ok), s.ret (n: errors, b: hello seen), *)
+(*               s.recv (k: kind of the item the read loop decoded, r: run) *)
+(* environment   e.send (k, r: run ID of a work-start), e.end, e.outfail   *)
 (* "reset" starts the next session (k: "client" or "server").              *)
 (***************************************************************************)
 EXTENDS ATPHello, Json, IOUtils
@@ -33,6 +34,7 @@ ResetCommon ==
   /\ rmu' = "" /\ c2s' = <<>> /\ s2c' = <<>> /\ outEnded' = "" /\ inClosed' = FALSE
   /\ helloSent' = FALSE /\ intact' = {}
   /\ serr' = 0 /\ cliEnded' = FALSE /\ outFail' = FALSE
+  /\ sbuf' = <<>> /\ seen' = <<>> /\ sent' = <<>>
 
 TReset ==
   /\ Is("reset") /\ ResetCommon
@@ -75,10 +77,12 @@ TFEnd     == Is("f.end") /\ EnvEndAny(Ev.k)      \* every session ends, also one
 TFFail    == Is("f.failwrites") /\ EnvFailWrites
 
 \* ------------------------------------------------------------------ server handshake
-\* SelfSerialize and the successful read of the start message have no event of their own: silent steps
+\* SelfSerialize, the successful read of the start message and the decoder's reads from the stream have no event
+\* of their own: silent steps (a Fill takes items off c2s, so there are finitely many between two lines)
 Silent ==
   /\ \/ srv = "selfser" /\ Describable /\ SrvSelfSer
      \/ SrvReadStart /\ srv' = "hello"
+     \/ SrvFill
   /\ UNCHANGED l
 TSrvStage ==
   /\ Is("s.hs")
@@ -86,12 +90,20 @@ TSrvStage ==
        [] Ev.k = "start"   -> SrvReadStart /\ srv' = "fail"
        [] Ev.k = "hello"   -> SrvHello /\ srv' = (IF Ev.b THEN "loop" ELSE "fail")
        [] OTHER -> FALSE
-\* RunATPServer returned: n errors
+\* the read loop decoded an item: it is the next one of the stream
+ItemOf(k, r) == CASE k = "start" -> Start [] k = "ws" -> WS(r) [] k = "junk" -> Junk [] OTHER -> Part
+TSrvRecv ==
+  /\ Is("s.recv")
+  /\ SrvLoopDecode
+  /\ Head(sbuf) = ItemOf(Ev.k, R)
+\* RunATPServer returned: n errors.  It returns after its read loop, and the loop ends at the end of the input or
+\* at the first item it cannot decode (earlier only if the output failed: an unsendable error closes the input)
 TSrvRet ==
   /\ Is("s.ret")
   /\ IF srv = "fail" THEN SrvFail /\ serr' = Ev.n ELSE srv = "loop" /\ UNCHANGED vars
   /\ Ev.b <=> (s2c = <<HelloItem(3, "ok")>>)
-TESend    == Is("e.send") /\ CliSend(CASE Ev.k = "start" -> Start [] Ev.k = "ws" -> WS("x") [] Ev.k = "junk" -> Junk [] OTHER -> Part)
+  /\ (srv = "loop" /\ ~outFail) => seen = LoopGiven
+TESend    == Is("e.send") /\ CliSend(ItemOf(Ev.k, R))
 TEEnd     == Is("e.end") /\ CliEnd
 TEOutFail == Is("e.outfail") /\ OutFails
 
@@ -99,7 +111,7 @@ TNext ==
   \/ TReset
   \/ THsSend \/ THsRet \/ TExec \/ TLock \/ TSend \/ TDecode \/ TResult
   \/ TFHello \/ TFAnswer \/ TFEnd \/ TFFail
-  \/ TSrvStage \/ TSrvRet \/ TESend \/ TEEnd \/ TEOutFail \/ Silent
+  \/ TSrvStage \/ TSrvRecv \/ TSrvRet \/ TESend \/ TEEnd \/ TEOutFail \/ Silent
 
 TSpec == TInit /\ [][TNext]_tvars
 
@@ -107,5 +119,5 @@ TSpec == TInit /\ [][TNext]_tvars
 TraceInv ==
   /\ (hs # "n/a") => CTypeOK /\ HelloHonest /\ HsErrHasReason /\ NoFabrication /\ ReturnsOnce /\ OneReader
   /\ (Peer = "v1") => V1NoCrossTalk
-  /\ (srv # "n/a") => STypeOK /\ HelloAfterStart
+  /\ (srv # "n/a") => STypeOK /\ HelloAfterStart /\ NothingSwallowed
 =============================================================================
